@@ -119,6 +119,12 @@ fn generate(rng: &mut Rng, tier: Tier, cases: &mut Vec<Case>) {
         let b = balance_factor(rng);
         cases.push(make_case(rng, "grid-large", r, m, b, &g, 255));
     }
+    // --- one grid with more than 4096 nodes (sizes at which batching / buffering strategies switch), shallow recursion
+    {
+        let s = spec(rng, 70, 60, 1000, 1000);
+        let g = gen_grid(rng, &s);
+        cases.push(make_case(rng, "grid-huge", 2, 50, 0.25, &g, 255));
+    }
     // --- denser graphs (diagonals, chords): a cut may exceed the cell's node count; the level clause is not claimed
     for _ in 0..(60 * scale) {
         let (w, h) = (4 + rng.below(8) as usize, 4 + rng.below(8) as usize);
